@@ -136,6 +136,9 @@ def _tod_case(rel, repeat, first_day_mode):
                         started, (CS - B) % DAY == TH, PS < CS - B, CS - B <= CS))))
                 elif rel in (Comparison.gt, Comparison.ge):
                     posts.append(("after_true_exactly_from_threshold_to_midnight", resz == z3.And(started, CS % DAY >= TH)))
+                    # the step in which the clock time passed: the control acts AT the instant (a partial step back to it), not at the end of the step
+                    posts.append(("after_backtracks_to_the_instant_it_became_true_within_the_step",
+                                  z3.Implies(z3.And(resz, (CS - TH) % DAY < CS - PS), B == (CS - TH) % DAY)))
                 elif rel is Comparison.lt:
                     posts.append(("before_true_exactly_from_midnight_to_threshold", resz == z3.And(started, CS % DAY < TH)))
                 elif rel is Comparison.le:
@@ -147,6 +150,7 @@ def _tod_case(rel, repeat, first_day_mode):
                     posts.append(("backtrack_to_instant", z3.Implies(resz, B == C2 - TH)))
                 elif rel in (Comparison.gt, Comparison.ge):
                     posts.append(("after_true_from_threshold_on", resz == z3.And(started, C2 >= TH)))
+                    posts.append(("after_backtracks_to_the_instant_it_became_true_within_the_step", z3.Implies(z3.And(resz, P2 < TH, TH <= C2), B == C2 - TH)))
                 elif rel is Comparison.lt:
                     posts.append(("before_true_until_threshold", resz == z3.And(started, C2 < TH)))
                 elif rel is Comparison.le:
@@ -253,4 +257,10 @@ def _instants(i, n):
     return run
 
 
-BOUNDED = [Bounded("C04.control_instants[%d/4]" % i, ["C04", "C05"], _instants(i, 4), kind="random schedules on the real simulator (not exhaustive)") for i in range(4)]
+def _line_times(tier, seed):
+    from bounded import c04_instants as B
+    return B.control_line_times(tier, seed)
+
+
+BOUNDED = [Bounded("C04.control_instants[%d/4]" % i, ["C04", "C05"], _instants(i, 4), kind="random schedules on the real simulator (not exhaustive)") for i in range(4)] + \
+          [Bounded("C04.control_line_times", ["C04", "C12"], _line_times, kind="enumerated time notations of [CONTROLS] lines, run-time contract")]
